@@ -56,6 +56,8 @@ class FnTranslator:
         self.specs = {s['name']: s for s in specs}
         self.oracles = set()
         self.fresh = 0
+        self.mask_uses = []
+        self.guards = []
 
     # ---- helpers
     def new(self, base):
@@ -109,6 +111,19 @@ class FnTranslator:
             if n.id not in env:
                 raise Refuse('%s: unknown name %s' % (self.rel, n.id))
             return env[n.id]
+        if isinstance(n, ast.Attribute) and isinstance(n.value, ast.Name):
+            key = '%s.%s' % (n.value.id, n.attr)
+            if key in env:
+                return env[key]
+            raise Refuse('%s: unknown attribute %s' % (self.rel, key))
+        if isinstance(n, ast.Subscript) and isinstance(n.value, ast.Name) and isinstance(n.slice, ast.Name):
+            # elementwise view of numpy code: v[mask] is v itself, read under the guard `mask`
+            # (only legal where the result is consumed under the same mask; checked at the use site)
+            v, m = self.expr(n.value, env), self.expr(n.slice, env)
+            if m[1] != 'B':
+                raise Refuse('%s: subscript by a non-mask' % self.rel)
+            self.mask_uses.append((n.slice.id, v[0]))
+            return v
         if isinstance(n, ast.UnaryOp):
             if isinstance(n.op, ast.USub):
                 a = self.expr(n.operand, env)
@@ -123,7 +138,13 @@ class FnTranslator:
                 if isinstance(n.left, ast.Constant) and n.left.value in (2, 2.0):
                     self.oracles.add('exp2')
                     return ('(exp2 %s)' % self.toQ(self.expr(n.right, env)), 'Q')
-                raise Refuse('%s: only 2 ** e is supported' % self.rel)
+                if isinstance(n.right, ast.Constant) and n.right.value == 2 and isinstance(n.right.value, int):
+                    a = self.expr(n.left, env)
+                    nm = self.new('sq')
+                    if a[1] == 'Z':
+                        return ('(let %s := %s in %s * %s)' % (nm, a[0], nm, nm), 'Z')
+                    return ('(let %s := %s in Qmult %s %s)' % (nm, self.toQ(a), nm, nm), 'Q')
+                raise Refuse('%s: only 2 ** e and e ** 2 are supported' % self.rel)
             a, b = self.expr(n.left, env), self.expr(n.right, env)
             if isinstance(n.op, (ast.Add, ast.Sub, ast.Mult)):
                 x, y, ty = self.num2(a, b)
@@ -230,6 +251,9 @@ class FnTranslator:
             if a[1] != 'S':
                 raise Refuse('.lower() on a non-string')
             return ('(unchars (lower (chars %s)))' % a[0], 'S')
+        if isinstance(f, ast.Attribute) and isinstance(f.value, ast.Name) and f.value.id in ('np', 'numpy', 'math') \
+                and f.attr in ('maximum', 'minimum', 'fmax', 'fmin') and len(n.args) == 2:
+            f = ast.Name(id='max' if 'max' in f.attr else 'min', ctx=ast.Load())
         if isinstance(f, ast.Name):
             args = [self.expr(a, env) for a in n.args]
             if f.id == 'abs' and len(args) == 1:
@@ -333,6 +357,32 @@ class FnTranslator:
             env2 = dict(env)
             env2[s.targets[0].id] = (nm, v[1])
             return '(let %s := %s in\n   %s)' % (nm, v[0], self.block(rest, env2, ret))
+        if isinstance(s, ast.AugAssign) and isinstance(s.target, ast.Subscript) \
+                and isinstance(s.target.value, ast.Name) and isinstance(s.target.slice, ast.Name) \
+                and isinstance(s.op, (ast.Sub, ast.Add)):
+            vname, mname = s.target.value.id, s.target.slice.id
+            v, m = self.expr(s.target.value, env), self.expr(s.target.slice, env)
+            if m[1] != 'B':
+                raise Refuse('%s: masked update by a non-mask' % self.rel)
+            e = self.expr(s.value, env)
+            x, y, ty = self.num2(v, e)
+            if ty == 'Z':
+                upd = '(%s %s %s)' % (x, '-' if isinstance(s.op, ast.Sub) else '+', y)
+            else:
+                upd = '(%s %s %s)' % ('Qminus' if isinstance(s.op, ast.Sub) else 'Qplus', x, y)
+            nm = self.new(vname)
+            env2 = dict(env)
+            keep = x if ty == v[1] else (self.toQ(v))
+            env2[vname] = (nm, ty)
+            return '(let %s := (if %s then %s else %s) in\n   %s)' % (nm, m[0], upd, keep, self.block(rest, env2, ret))
+        if isinstance(s, ast.AugAssign) and isinstance(s.target, ast.Name) and isinstance(s.op, (ast.Sub, ast.Add, ast.Mult)):
+            binop = ast.BinOp(left=ast.Name(id=s.target.id, ctx=ast.Load()), op=s.op, right=s.value)
+            return self.block([ast.Assign(targets=[ast.Name(id=s.target.id, ctx=ast.Store())], value=binop)] + rest, env, ret)
+        if isinstance(s, ast.If) and self.is_raise_guard(s):
+            # `if <cond>: raise ...` -- the error path is outside the translated function:
+            # its condition is recorded as a precondition comment, the rest is translated
+            self.guards.append(ast.unparse(s.test))
+            return self.block(rest, env, ret)
         if isinstance(s, ast.If):
             nw = self.narrowing(s.test, env)
             returns_then = self.always_returns(s.body)
@@ -403,6 +453,9 @@ class FnTranslator:
             return body
         raise Refuse('%s: unsupported statement %s' % (self.rel, type(s).__name__))
 
+    def is_raise_guard(self, s):
+        return (not s.orelse) and len(s.body) == 1 and isinstance(s.body[0], ast.Raise)
+
     def always_returns(self, stmts):
         for s in stmts:
             if isinstance(s, ast.Return):
@@ -429,8 +482,11 @@ class FnTranslator:
         if args.vararg or args.kwarg or args.kwonlyargs or args.posonlyargs:
             raise Refuse('%s.%s: unsupported parameter kinds' % (self.rel, sp['name']))
         names = [a.arg for a in args.args]
-        if names != [p[0] for p in sp['params']]:
-            raise Refuse('%s.%s: parameters are now %s, the spec expects %s' % (self.rel, sp['name'], names, [p[0] for p in sp['params']]))
+        want = sp.get('py_params')
+        if want is None:
+            want = [p[0] for p in sp['params'] if '.' not in p[0] and p[0] not in sp.get('closure', [])]
+        if names != want:
+            raise Refuse('%s.%s: parameters are now %s, the spec expects %s' % (self.rel, sp['name'], names, want))
         # defaults: literal defaults are recorded so that calls omitting them can be translated
         sp['defaults'] = {}
         for a, d in zip(args.args[len(args.args) - len(args.defaults):], args.defaults):
@@ -442,10 +498,12 @@ class FnTranslator:
                     sp['defaults'][a.arg] = self.coerce(self.expr(d, {}), pt)
                 except Refuse:
                     pass
-        env = {p: (p, t) for p, t in sp['params']}
+        env = {p: (p.replace('.', '_'), t) for p, t in sp['params']}
+        self.guards = []
         body = self.block(fnode.body, env, sp['ret'])
-        params = ' '.join('(%s : %s)' % (p, COQTY[t]) for p, t in sp['params'])
-        return 'Definition %s %s : %s :=\n  %s.' % (sp['coq'], params, COQTY[sp['ret']], body)
+        params = ' '.join('(%s : %s)' % (p.replace('.', '_'), COQTY[t]) for p, t in sp['params'])
+        pre = ''.join('(* error path outside the translation: raises when  %s *)\n' % g for g in self.guards)
+        return pre + 'Definition %s %s : %s :=\n  %s.' % (sp['coq'], params, COQTY[sp['ret']], body)
 
 
 def find_func(tree, qual):
